@@ -298,6 +298,17 @@ def step (line : String) : String :=
       | some s, some f => s!"ok {showNats s} {showNats f}"
       | _, _ => "panic")
     | none => "bad-op")
+  | ["canonused", kind, n] =>
+    (match n.toNat? with
+    | some n =>
+      let sw := if n ≤ 1 then some [] else swapsFor n
+      let fl := if n = 0 then some [] else flipsFor n
+      (match kind, sw, fl with
+      | "p", some s, _ => s!"ok {showNats s} -"
+      | "n", _, some f => s!"ok - {showNats f}"
+      | "npn", some s, some f => s!"ok {showNats s} {showNats f}"
+      | _, _, _ => "panic")
+    | none => "bad-op")
   | ["decomp", _, tab, i] =>
     (match parseTab tab, i.toNat? with
     | some l, some i => okOrPanic ((Dyn.topDecomposition l i).map showDecomp)
